@@ -1,4 +1,5 @@
 import MiniVecProof.Props.C10DrainFilter
+import MiniVecProof.Props.C04
 /-
   C04 (DrainFilter) — a predicate that panics.  `DrainFilter::next` raises `panicked` before it calls
   the predicate; if the call unwinds, `Drop for DrainFilter` does not touch the predicate again: its
@@ -116,7 +117,197 @@ theorem C04_drain_filter_partial (X : Ctx) (f : DFSt) (s : St) (kept junk rest :
   simp only [if_true]
   rw [hgb]; exact hg
 
+/-! ### `DrainFilter::next` and `Drop for DrainFilter` under an ARBITRARY panic oracle -/
+
+/-- the catch-all around the predicate call: either it returned, or it panicked; only the callback counter moves -/
+theorem callbackCaught_any (X : Ctx) (s : St) :
+    ∃ b, DrainFilter.callbackCaught X s = (.ok b, { s with sys := { s.sys with cbIdx := s.sys.cbIdx + 1 } }) := by
+  unfold DrainFilter.callbackCaught VM.callback
+  by_cases hp : X.o.panicAt s.sys.cbIdx = true
+  · exact ⟨true, by simp [hp]⟩
+  · exact ⟨false, by simp [hp]⟩
+
+/-- how one `next()` can end when any call of the predicate may panic: it hands out an element, reports the end, or
+    unwinds with `panicked` raised — in every case at a point where the scan invariant holds, with the elements it
+    passed over (`mid`) kept, nothing destroyed, no allocator traffic -/
+theorem df_next_any (X : Ctx) :
+    ∀ (rest kept junk : List Elem) (f : DFSt) (s : St) (fuel : Nat), DFInv X s.v f kept junk rest → rest.length < fuel →
+    ∃ s' st f' junk' rest' mid, DrainFilter.next X fuel f s = (.ok (st, f'), s') ∧
+      s'.sys.tr = s.sys.tr ∧ s'.v.cap = s.v.cap ∧ s'.v.blk.map (·.bid) = s.v.blk.map (·.bid) ∧
+      ((∃ e, st = .item e ∧ rest = mid ++ e :: rest' ∧ DFInv X s'.v f' (kept ++ mid) junk' rest') ∨
+       (st = .done ∧ rest = mid ∧ rest' = [] ∧ DFInv X s'.v f' (kept ++ mid) junk' []) ∨
+       (st = .predPanicked ∧ rest = mid ++ rest' ∧ rest' ≠ [] ∧
+          ∃ f0, f' = { f0 with panicked := true } ∧ DFInv X s'.v f0 (kept ++ mid) junk' rest')) := by
+  intro rest
+  induction rest with
+  | nil =>
+    intro kept junk f s fuel h hf
+    cases fuel with
+    | zero => omega
+    | succ fuel =>
+      refine ⟨s, .done, f, junk, [], [], ?_, rfl, rfl, rfl, .inr (.inl ⟨rfl, rfl, rfl, by simpa using h⟩)⟩
+      unfold DrainFilter.next
+      have : ¬ f.pos < f.oldLen := by have := h.ps; have := h.ol; simp at *; omega
+      simp only [this, if_false, VM.pure_run]
+  | cons e rest ih =>
+    intro kept junk f s fuel h hf
+    cases fuel with
+    | zero => omega
+    | succ fuel =>
+      have hpos : f.pos < f.oldLen := by have := h.ps; have := h.ol; simp at *; omega
+      have hlen : f.pos < (kept ++ junk ++ e :: rest).length := by have := h.ps; simp; omega
+      have h0 := lift_data X s f.oldLen _ h.full h.hd
+      have h1 := rd_full X s f.oldLen _ h.full h.hd f.pos hlen
+      have he : (kept ++ junk ++ e :: rest)[f.pos] = e := by
+        have hp := h.ps
+        simp only [hp]
+        rw [List.getElem_append_right (by simp)]; simp
+      rw [he] at h1
+      obtain ⟨pb, h2⟩ := callbackCaught_any X s
+      let s1 : St := { s with sys := { s.sys with cbIdx := s.sys.cbIdx + 1 } }
+      unfold DrainFilter.next
+      simp only [hpos, if_true, VM.bind_run, h0, h1, h2]
+      cases pb with
+      | true =>
+        -- the predicate panicked: nothing was touched
+        simp only [if_true, VM.pure_run]
+        refine ⟨s1, .predPanicked, { f with panicked := true }, junk, e :: rest, [], rfl, rfl, rfl, rfl,
+          .inr (.inr ⟨rfl, by simp, by simp, f, rfl, by simpa using h⟩)⟩
+      | false =>
+        simp only [Bool.false_eq_true, if_false]
+        by_cases hp : f.pred f.calls e = true
+        · simp only [hp, if_true, VM.pure_run]
+          refine ⟨s1, .item e, _, junk ++ [e], rest, [], rfl, rfl, rfl, rfl, .inl ⟨e, rfl, by simp, ?_⟩⟩
+          exact { hd := h.hd, len0 := h.len0, full := by simpa using h.full, nl := by simpa using h.nl,
+                  ps := by have := h.ps; simp; omega, ol := by have := h.ol; simp at *; omega, np := rfl }
+        · have hp' : f.pred f.calls e = false := by simpa using hp
+          simp only [hp', Bool.false_eq_true, if_false]
+          cases junk with
+          | nil =>
+            have hnp : ¬ f.pos > f.newLen := by have := h.ps; have := h.nl; simp at *; omega
+            let f1 : DFSt := { f with calls := f.calls + 1, panicked := false, pos := f.pos + 1, newLen := f.newLen + 1 }
+            have hinv1 : DFInv X s1.v f1 (kept ++ [e]) [] rest :=
+              { hd := h.hd, len0 := h.len0, full := by simpa using h.full, nl := by have := h.nl; simp [f1]; omega,
+                ps := by have := h.ps; simp [f1] at *; omega, ol := by have := h.ol; simp [f1] at *; omega, np := rfl }
+            obtain ⟨s', st, f', junk', rest', mid, hrun, htr, hc, hb, hcases⟩ :=
+              ih (kept ++ [e]) [] f1 s1 fuel hinv1 (by simp at hf; omega)
+            refine ⟨s', st, f', junk', rest', e :: mid, ?_, htr, hc, hb, ?_⟩
+            · simp only [hnp, if_false, VM.bind_run, VM.pure_run]
+              exact hrun
+            · rcases hcases with ⟨x, hst, hr, hinv⟩ | ⟨hst, hr, hr', hinv⟩ | ⟨hst, hr, hne, f0, hf0, hinv⟩
+              · exact .inl ⟨x, hst, by simp [hr], by simpa using hinv⟩
+              · exact .inr (.inl ⟨hst, by simp [hr], hr', by simpa using hinv⟩)
+              · exact .inr (.inr ⟨hst, by simp [hr], hne, f0, hf0, by simpa using hinv⟩)
+          | cons j0 jt =>
+            have hgt : f.pos > f.newLen := by have := h.ps; have := h.nl; simp at *; omega
+            have hdst : f.newLen < (kept ++ (j0 :: jt) ++ e :: rest).length := by have := h.nl; simp; omega
+            obtain ⟨v', hcp, habs', hc, hd', hal, hl', hb⟩ := cp1_full X s1 f.oldLen _ h.full h.hd f.pos f.newLen hlen hdst
+            rw [he] at habs'
+            have hnl := h.nl
+            rw [hnl, df_copy_list] at habs'
+            let f1 : DFSt := { f with calls := f.calls + 1, panicked := false, pos := f.pos + 1, newLen := f.newLen + 1 }
+            have hinv1 : DFInv X ({ s1 with v := v' } : St).v f1 (kept ++ [e]) (jt ++ [e]) rest :=
+              { hd := hd', len0 := by show v'.len = 0; rw [hl']; exact h.len0, full := habs',
+                nl := by simp [f1]; omega, ps := by have := h.ps; simp [f1] at *; omega,
+                ol := by have := h.ol; simp [f1] at *; omega, np := rfl }
+            obtain ⟨s', st, f', junk', rest', mid, hrun, htr, hc2, hb2, hcases⟩ :=
+              ih (kept ++ [e]) (jt ++ [e]) f1 { s1 with v := v' } fuel hinv1 (by simp at hf; omega)
+            refine ⟨s', st, f', junk', rest', e :: mid, ?_, htr, by rw [hc2]; exact hc, by rw [hb2]; exact hb, ?_⟩
+            · simp only [hgt, if_true, VM.bind_run]
+              have hcp' : VM.cp (.at (dataOff s.v.align)) f.pos f.newLen 1 s1 = (.ok (), { s1 with v := v' }) := hcp
+              rw [hcp']
+              exact hrun
+            · rcases hcases with ⟨x, hst, hr, hinv⟩ | ⟨hst, hr, hr', hinv⟩ | ⟨hst, hr, hne, f0, hf0, hinv⟩
+              · exact .inl ⟨x, hst, by simp [hr], by simpa using hinv⟩
+              · exact .inr (.inl ⟨hst, by simp [hr], hr', by simpa using hinv⟩)
+              · exact .inr (.inr ⟨hst, by simp [hr], hne, f0, hf0, by simpa using hinv⟩)
+
+/-- the guard does not look at the `panicked` flag -/
+theorem df_guard_flag (X : Ctx) (f0 : DFSt) (s : St) :
+    DrainFilter.guardBody X { f0 with panicked := true } s = DrainFilter.guardBody X f0 s := by
+  unfold DrainFilter.guardBody; rfl
+
+/-- **(C04, `Drop for DrainFilter`, ANY panic oracle)**: the drop loop calls the predicate on every element not yet
+    scanned and destroys every element it accepts; any of these calls may panic. In every case the loop ends
+    normally or with that one panic (never an abort, an illegal access or a hang: the guard calls no user code), the
+    vector is well formed, keeps its capacity, still starts with what had been kept, and every element not yet
+    scanned is either exposed by it or was destroyed — exactly once. -/
+theorem df_dropLoop_any (X : Ctx) :
+    ∀ (fuel : Nat) (rest kept junk : List Elem) (f : DFSt) (s : St), DFInv X s.v f kept junk rest → rest.length < fuel →
+    ∃ r s' cur gone, DrainFilter.dropLoop X fuel f s = (r, s') ∧ (r = .ok () ∨ r = .error .explicit) ∧
+      Abs X s'.v (kept ++ cur) ∧ (cur ++ gone).Perm rest ∧
+      ownEvents s'.sys.tr = ownEvents s.sys.tr ++ dropEvents X gone ∧ s'.v.cap = s.v.cap := by
+  intro fuel
+  induction fuel with
+  | zero => intro rest kept junk f s h hf; omega
+  | succ fuel ih =>
+    intro rest kept junk f s h hf
+    have hfuel : rest.length < f.oldLen - f.pos + 1 := by have := h.ps; have := h.ol; omega
+    obtain ⟨s1, st, f', junk', rest', mid, hrun, htr, hc, hb, hcases⟩ := df_next_any X rest kept junk f s _ h hfuel
+    unfold DrainFilter.dropLoop
+    simp only [VM.bind_run, hrun]
+    rcases hcases with ⟨e, hst, hr, hinv⟩ | ⟨hst, hr, hr', hinv⟩ | ⟨hst, hr, hne, f0, hf0, hinv⟩
+    · -- an accepted element is destroyed under the guard
+      subst hst
+      simp only
+      obtain ⟨rd, s2, hd, hv2, hrd, hev⟩ := dropElem_any X e s1
+      have hinv2 : DFInv X s2.v f' (kept ++ mid) junk' rest' := by rw [hv2]; exact hinv
+      rcases hrd with hok | herr
+      · subst hok
+        have hou : VM.onUnwind (VM.dropElem X e) (DrainFilter.guardBody X f') s1 = (.ok (), s2) := by
+          unfold VM.onUnwind; rw [hd]
+        simp only [VM.bind_run, hou]
+        obtain ⟨r, s3, cur, gone, hrun3, hr3, habs3, hperm3, hev3, hc3⟩ :=
+          ih rest' (kept ++ mid) junk' f' s2 hinv2 (by rw [hr] at hf; simp at hf; omega)
+        refine ⟨r, s3, mid ++ cur, e :: gone, hrun3, hr3, by simpa [List.append_assoc] using habs3, ?_, ?_, ?_⟩
+        · have h1 : (cur ++ e :: gone).Perm (e :: (cur ++ gone)) := List.perm_middle
+          have h2 : (e :: (cur ++ gone)).Perm (e :: rest') := hperm3.cons e
+          rw [hr, List.append_assoc]
+          exact (h1.trans h2).append_left mid
+        · rw [hev3, hev, htr, dropEvents_cons X e gone, List.append_assoc]
+        · rw [hc3, hv2, hc]
+      · subst herr
+        obtain ⟨v', hg, habs, hcg, _⟩ := df_guard_general X f' s2 (kept ++ mid) junk' rest' hinv2
+        have hou : VM.onUnwind (VM.dropElem X e) (DrainFilter.guardBody X f') s1 = (.error .explicit, { s2 with v := v' }) := by
+          unfold VM.onUnwind; rw [hd]; simp only [VM.unwinds, if_true, hg]
+        simp only [VM.bind_run, hou]
+        refine ⟨_, _, mid ++ rest', [e], rfl, .inr rfl, by simpa [List.append_assoc] using habs, ?_, ?_, ?_⟩
+        · have h1 : (rest' ++ [e]).Perm (e :: rest') := by simpa using (List.perm_middle (a := e) (l₁ := rest') (l₂ := []))
+          rw [hr, List.append_assoc]
+          exact h1.append_left mid
+        · show ownEvents s2.sys.tr = _; rw [hev, htr]
+        · show v'.cap = _; rw [hcg, hv2, hc]
+    · -- the scan is over: the guard closes the gap
+      subst hst
+      simp only
+      obtain ⟨v', hg, habs, hcg, _⟩ := df_guard_general X f' s1 (kept ++ mid) junk' [] hinv
+      rw [hg]
+      refine ⟨_, _, mid, [], rfl, .inl rfl, by simpa [List.append_assoc] using habs, by simp [hr], ?_, ?_⟩
+      · show ownEvents s1.sys.tr = _; rw [htr]; simp [dropEvents]
+      · show v'.cap = _; rw [hcg, hc]
+    · -- the predicate panicked: the guard moves the rest back, the panic continues
+      subst hst
+      simp only
+      obtain ⟨v', hg, habs, hcg, _⟩ := df_guard_general X f0 s1 (kept ++ mid) junk' rest' hinv
+      rw [hf0, df_guard_flag, hg]
+      refine ⟨_, _, mid ++ rest', [], rfl, .inr rfl, by simpa [List.append_assoc] using habs, by simp [hr], ?_, ?_⟩
+      · show ownEvents s1.sys.tr = _; rw [htr]; simp [dropEvents]
+      · show v'.cap = _; rw [hcg, hc]
+
+/-- (C04) dropping a DrainFilter at any point of its scan, any callback may panic -/
+theorem C04_drain_filter_drop_partial (X : Ctx) (f : DFSt) (s : St) (kept junk rest : List Elem)
+    (h : DFInv X s.v f kept junk rest) :
+    ∃ r s' cur gone, DrainFilter.drop X f s = (r, s') ∧ (r = .ok () ∨ r = .error .explicit) ∧
+      Abs X s'.v (kept ++ cur) ∧ (cur ++ gone).Perm rest ∧
+      ownEvents s'.sys.tr = ownEvents s.sys.tr ++ dropEvents X gone ∧ s'.v.cap = s.v.cap := by
+  unfold DrainFilter.drop
+  rw [h.np]
+  simp only [Bool.false_eq_true, if_false]
+  exact df_dropLoop_any X _ rest kept junk f s h (by have := h.ps; have := h.ol; omega)
+
 end MV.Props
 
 #print axioms MV.Props.df_guard_general
 #print axioms MV.Props.C04_drain_filter_partial
+#print axioms MV.Props.df_next_any
+#print axioms MV.Props.C04_drain_filter_drop_partial
